@@ -511,3 +511,41 @@ package cache
 //@ loop 4 invariant vfi(oldRow, r.indexSpecs[rangeindex2 + 1].columns) != vfi(m, r.indexSpecs[rangeindex2 + 1].columns) && r.indexSpecs[rangeindex2 + 1].indexType == 0 ==> ((vfi(m, r.indexSpecs[rangeindex2 + 1].columns) in r.indexes[r.indexSpecs[rangeindex2 + 1].index]) && r.indexes[r.indexSpecs[rangeindex2 + 1].index][vfi(m, r.indexSpecs[rangeindex2 + 1].columns)] == addIndexes[r.indexSpecs[rangeindex2 + 1].index][vfi(m, r.indexSpecs[rangeindex2 + 1].columns)])
 //@ loop 4 invariant r.indexSpecs[rangeindex2 + 1].indexType != 0 ==> USep(r, addIndexes, oldRow, m, rangeindex2 + 1, rangeindex2 + 1)
 //@ loop 4 invariant forall i: int, v: interface{}, u: string :: 0 <= i && i < len(r.indexSpecs) ==> (InIdx(r, i, v, u) == ite(i <= rangeindex2, UDone(r, oldRow, m, uuid, i, v, u), ite(i == rangeindex2 + 1, ite(vfi(oldRow, r.indexSpecs[i].columns) != vfi(m, r.indexSpecs[i].columns), UAdded(r, oldRow, m, uuid, i, v, u) && !(u == uuid && v == vfi(oldRow, r.indexSpecs[i].columns) && visited(v)), old(InIdx(r, i, v, u))), old(InIdx(r, i, v, u)))))
+
+// ---- IndexExists (C06): the duplicate check against this cache -----------------
+// index i is one of the leading schema indexes (the loop stops at the first client index)
+//@ pred SchemaPrefix(r *RowCache, i int) := 0 <= i && i < len(r.indexSpecs) && (forall j: int :: 0 <= j && j <= i ==> r.indexSpecs[j].indexType == 0)
+// no other row (a uuid other than the row's own) is indexed under the row's value of index i
+//@ pred NoConflictAt(r *RowCache, m model.Model, uuid string, i int) := vfiOK(m, r.indexSpecs[i].columns) ==> (forall u: string :: InIdx(r, i, vfi(m, r.indexSpecs[i].columns), u) ==> u == uuid)
+//@ func (*RowCache).IndexExists group idx
+//@ requires IdxWFMaps(r) && row != nil
+//@ requires fieldOK(row, "_uuid") ==> istype(fieldOf(row, "_uuid"), "string")
+//@ modifies nothing
+//@ ensures_ok fieldOK(row, "_uuid") ==> (forall i: int :: SchemaPrefix(r, i) ==> NoConflictAt(r, row, unbox(fieldOf(row, "_uuid"), "string"), i))
+//@ ensures_err istype(result, "*ErrIndexExists") ==> (fieldOK(row, "_uuid") && (exists i: int :: SchemaPrefix(r, i) && !NoConflictAt(r, row, unbox(fieldOf(row, "_uuid"), "string"), i)))
+//@ loop 1 invariant info != nil && info.Obj == row
+//@ loop 1 invariant forall i: int :: 0 <= i && i <= rangeindex ==> r.indexSpecs[i].indexType == 0
+//@ loop 1 invariant forall i: int :: 0 <= i && i <= rangeindex ==> NoConflictAt(r, row, uuid, i)
+
+// a row passes IndexExists against this cache
+//@ pred RowOK(r *RowCache, m model.Model) := fieldOK(m, "_uuid") ==> (forall i: int :: SchemaPrefix(r, i) ==> NoConflictAt(r, m, unbox(fieldOf(m, "_uuid"), "string"), i))
+//@ func (*RowCache).IndexExists group idx
+//@ ensures_ok RowOK(r, row)
+
+//@ func (*RowCache).HasRow
+//@ modifies nothing
+//@ ensures result == (uuid in r.cache)
+
+//@ func (*TableCache).Table
+//@ modifies nothing
+//@ ensures (name in t.cache) ==> result == t.cache[name]
+//@ ensures !(name in t.cache) ==> result == nil
+
+//@ func (*TableCache).Tables
+//@ modifies nothing
+//@ ensures forall k: string :: (k in t.cache) ==> (exists i: int :: 0 <= i && i < len(result) && result[i] == k)
+//@ ensures forall i: int :: 0 <= i && i < len(result) ==> (result[i] in t.cache)
+//@ loop 1 invariant 0 <= len(result) && len(result) <= cap(result) && (cap(result) > 0 ==> fresh(result))
+//@ loop 1 invariant forall k: string :: visited(k) ==> (exists i: int :: 0 <= i && i < len(result) && result[i] == k)
+//@ loop 1 invariant forall i: int :: 0 <= i && i < len(result) ==> (result[i] in t.cache)
+
